@@ -340,6 +340,17 @@ class RecRepeated:
         return f"RecRepeated({self.field})"
 
 
+class ObjDict:
+    """`obj.__dict__` of a heap object: only looked into by name (`.get(name, default)`)."""
+    __slots__ = ("ref",)
+
+    def __init__(self, ref):
+        self.ref = ref
+
+    def __repr__(self):
+        return f"ObjDict({self.ref})"
+
+
 class BoundMethod:
     __slots__ = ("func", "self_")
 
